@@ -49,20 +49,70 @@ GUARDS_MATRICES = ["guards_sites_matrices", "guards_context_matrices", "guard_ma
                    "guards_tie_migration_matrices", "guard_migration_rates_meaning", "guards_tie_check_migration_rates"]
 GUARDS_SIZE_AT = ["guards_sites_size_at", "guards_context_size_at", "guard_size_at_inf_meaning",
                   "guard_size_at_epoch_meaning", "guard_size_at_end_size_meaning", "guards_tie_size_at"]
+GUARDS_CLOSE = ["guards_tie_isclose_deme_proportions", "guards_tie_epoch_assert_close", "guards_tie_epoch_isclose",
+                "guards_tie_migration_assert_close", "guards_tie_migration_isclose",
+                "guards_tie_pulse_assert_close", "guards_tie_pulse_isclose", "guards_tie_deme_assert_close",
+                "guards_tie_deme_isclose", "guards_tie_graph_assert_close", "guards_tie_graph_isclose"]
+GUARDS_VIEWS = ["guards_tie_predecessors", "guards_tie_successors", "guards_sites_views", "guards_context_views",
+                "guards_events_aligned_flag", "guards_events_loops", "guards_events_initial",
+                "guards_events_effects", "guard_events_no_ancestors_meaning", "guard_events_one_ancestor_meaning",
+                "guard_events_split_meaning", "guard_events_misaligned_meaning", "guards_tie_discrete_events"]
+GUARDS_IO = ["guards_no_null_helpers", "guards_tie_check_if_none", "guards_tie_no_null_val",
+             "guards_tie_no_null_obj", "guards_tie_no_null_list", "guards_tie_no_null_values",
+             "guards_sites_io", "guards_context_io", "guards_stringify_loops", "guards_stringify_assignments",
+             "guard_stringify_deme_meaning", "guard_stringify_migration_meaning",
+             "guards_tie_stringify_infinities", "guards_unstringify_loops", "guards_unstringify_assignments",
+             "guard_unstringify_deme_meaning", "guard_unstringify_migration_meaning",
+             "guard_unstringify_default_key_meaning", "guard_unstringify_default_meaning",
+             "guards_tie_unstringify_infinities", "guards_io_pipeline"]
+GUARDS_RESCALE = ["guards_tie_in_generations", "guards_in_generations_other"]
+GUARDS_RENAME = ["guards_tie_rename_demes", "guards_sites_rename", "guards_context_rename", "guards_rename_other",
+                 "guard_rename_types_meaning", "guard_rename_collision_meaning", "guards_tie_rename_check"]
+GUARDS_SIMPLIFY = ["guards_sites_simplify", "guards_context_simplify", "guards_simplify_epochs_deletes",
+                   "guards_simplify_migrations_deletes", "guards_simplify_epochs_locals", "guards_simplify_calls",
+                   "guard_simplify_infer_constant_meaning", "guard_simplify_size_function_meaning",
+                   "guard_simplify_end_size_meaning", "guard_simplify_selfing_meaning",
+                   "guard_simplify_cloning_meaning", "guards_tie_epoch_simplified",
+                   "guard_simplify_start_inf_meaning", "guard_simplify_single_ancestor_meaning",
+                   "guard_simplify_unit_proportion_meaning", "guard_simplify_start_implied_meaning",
+                   "guards_tie_deme_simplified", "guard_simplify_mig_end_meaning", "guard_simplify_mig_start_meaning",
+                   "guards_tie_strip_bounds", "guard_collapse_first_meaning", "guard_collapse_second_meaning",
+                   "guards_tie_collapse_demes", "guard_simplify_single_pair_meaning",
+                   "guard_simplify_search_loop_meaning", "guards_tie_search_loop", "guards_tie_simplify_migrations",
+                   "guard_asdict_keep_field_meaning", "guard_simplify_has_migrations_meaning"]
+# semantic tie of the tests of ms.to_ms / ms.build_graph (Generated/GuardsToMs.lean, GuardsMsBuild.lean)
+GUARDS_TO_MS = ["guards_sites_to_ms", "guards_context_to_ms", "guards_tests_to_ms",
+                "guard_to_ms_size_function_meaning", "guard_to_ms_sizes_differ_meaning",
+                "guards_tie_get_growth_rate", "guard_to_ms_size_change_meaning", "guards_tie_deme_size_events",
+                "guard_to_ms_last_ancestor_meaning", "guard_to_ms_multi_source_meaning",
+                "guards_tie_ancestry_events", "guard_to_ms_migration_off_meaning", "guards_tie_migration_events",
+                "guard_to_ms_samples_meaning", "guard_to_ms_structure_meaning", "guard_to_ms_no_samples_meaning",
+                "guards_tie_to_ms"]
+GUARDS_MS_BUILD = ["guards_sites_ms_build", "guards_context_ms_build", "guards_tests_ms_build",
+                   "guard_ms_bad_id_meaning", "guard_ms_joined_id_meaning", "guards_tie_convert_population_id",
+                   "guard_ms_outside_meaning", "guard_ms_new_epoch_meaning", "guards_tie_epoch_resolve",
+                   "guard_ms_new_matrix_meaning", "guards_tie_migration_matrix_at", "guard_ms_growth_all_meaning",
+                   "guard_ms_growth_one_meaning", "guard_ms_diagonal_meaning", "guard_ms_npop_meaning",
+                   "guards_tie_step_event", "guard_ms_foreign_meaning", "guard_ms_no_foreign_meaning",
+                   "guard_ms_replaced_meaning", "guards_tie_apply_params", "guard_ms_growing_meaning",
+                   "guard_ms_infinite_meaning", "guards_tie_finalise_growth"]
 G_RESOLVE = T("TablesGuards", GUARDS_RESOLVE) + T("TablesGuardsMatrices", GUARDS_MATRICES)
 EXTRA = {
     "C01": T("TablesResolve", RESOLVE_TABLES) + T("TablesConst", ["tables_rel_tol"]) + G_RESOLVE,
     "C02": T("TablesResolve", RESOLVE_TABLES),
     "C03": T("TablesResolve", RESOLVE_TABLES) + T("TablesConst", ["tables_rel_tol"]) + G_RESOLVE,
-    "C05": T("TablesResolve", RESOLVE_TABLES[:7]),
+    "C05": T("TablesResolve", RESOLVE_TABLES[:7]) + T("TablesGuardsSimplify", GUARDS_SIMPLIFY),
     "C06": T("TablesResolve", RESOLVE_TABLES[:7]),
-    "C07": T("TablesMs", MS_TABLES), "C08": T("TablesMs", MS_TABLES), "C09": T("TablesMs", MS_TABLES),
-    "C10": T("TablesConst", ["tables_rel_tol", "tables_abs_tol"]),
-    "C11": T("TablesFacts", ["fact_in_generations_copies_first"]),
+    "C07": T("TablesMs", MS_TABLES) + T("TablesGuardsToMs", GUARDS_TO_MS),
+    "C08": T("TablesMs", MS_TABLES) + T("TablesGuardsMsBuild", GUARDS_MS_BUILD),
+    "C09": T("TablesMs", MS_TABLES),
+    "C16": T("TablesGuardsIO", GUARDS_IO),
+    "C10": T("TablesConst", ["tables_rel_tol", "tables_abs_tol"]) + T("TablesGuardsClose", GUARDS_CLOSE),
+    "C11": T("TablesFacts", ["fact_in_generations_copies_first"]) + T("TablesGuardsRescale", GUARDS_RESCALE),
     "C12": T("TablesConst", ["tables_rel_tol"]) + T("TablesGuardsMatrices", GUARDS_MATRICES),
     "C13": T("TablesConst", ["tables_rel_tol"]) + T("TablesGuardsSizeAt", GUARDS_SIZE_AT),
-    "C14": T("TablesResolve", EVENT_TABLES),
-    "C15": T("TablesFacts", ["fact_rename_demes_copies_first"]),
+    "C14": T("TablesResolve", EVENT_TABLES) + T("TablesGuardsViews", GUARDS_VIEWS),
+    "C15": T("TablesFacts", ["fact_rename_demes_copies_first"]) + T("TablesGuardsRename", GUARDS_RENAME),
     "C18": T("TablesFacts", ["fact_fromdict_copies_first", "fact_builder_resolve_passes_data", "fact_fromdict_copy_is_unaliased", "fact_deepcopy_unaliased_shape", "fact_builder_resolve_only_passes_data"]),
     "C19": T("TablesMs", ["tables_cli_parse_flags", "tables_cli_parse_tests"]),
 }
